@@ -13,9 +13,15 @@
    unbuffered tag sequence); if it ends in an error the buffered run ends in the same error after items whose unrolling is a
    prefix of the unbuffered items (C08_error_prefix; what is missing is the Start and the partial children of the buffered
    masters open at the error).  The "master never ended" error of buffer_master is unreachable (C08_master_end_found).
-   C08_error_ex: a buffered master whose third child is corrupted. *)
+   C08_error_ex: a buffered master whose third child is corrupted.
+   How the drains END (last part of this file, Proofs/BufferedEof.v): a buffered drain that ends with None means, for EVERY
+   configuration, a drain with nothing buffered that ends with None after the unrolled items, unless that drain is cut at its
+   item limit (C08_buffered_none_export, C08_buffered_none_unbuffered_none); with end-of-input closing the two drains end with
+   None together (C08_none_iff).  WITHOUT end-of-input closing (c_emit_eof = false): C08_error_prefix holds unchanged
+   (C08_error_prefix_any); C08_clean_stays_clean holds when the drain with nothing buffered leaves no master with a buffered id
+   open (C08_clean_stays_clean_open) and fails otherwise (C08_noeof_counterexample: the recorded defect D18). *)
 From Ebml Require Import Base Tools Spec Reader Pure Proofs.Tactics Proofs.NoPanic Proofs.RollUp Proofs.Nesting Proofs.BufferSim
-  Proofs.BufferSimErr.
+  Proofs.BufferSimErr Proofs.BufferedEof.
 
 (* the Full item a buffered master becomes unrolls to its Start, the flattening of the items queued for it, and its End *)
 Theorem C08_unroll_rollup_partial : forall tid children, Bal children ->
@@ -199,3 +205,163 @@ Example C08_error_ex :
   p_run c input [RAll] =
     [OItem (TStart 129) 0; OItem (TElem 16644 (VU 5)) 2; OErr (RInvalidTagId 17 16656)].
 Proof. vm_compute. split; reflexivity. Qed.
+
+(* ================================================================== how the drains end (Proofs/BufferedEof.v)
+   Vocabulary.  [run_u c input lim]: the outcomes of the drain of [unbuffered c] on [input] with the item limit [lim], i.e.
+   [snd (p_run_all lim (unbuffered c) (p_init input))]; [p_run (unbuffered c) input [RAll]] is [run_u c input (4 * |input| + 64)]
+   (C08_run_u_p_run).  A drain yields items and then exactly one other outcome (C08_drain_items), so "the drain is
+   [outs ++ [ONone]]" says: it yielded the items [outs], no error, no panic-site, budget or item-limit outcome, and ended with
+   None.
+   [final_u c input]: the reader state in which the drain of [unbuffered c] on [input] ends;
+   [nobuf c stk]: no frame of the stack [stk] (open masters, started or implied as ancestors) has an id in [c_buffered c]. *)
+Theorem C08_run_u_p_run : forall c input, run_u c input (4 * length input + 64) = p_run (unbuffered c) input [RAll].
+Proof. exact run_u_p_run. Qed.
+
+(* every configuration, every input: all outcomes of a drain but the last are items *)
+Theorem C08_drain_items : forall c input outs fin, p_run c input [RAll] = outs ++ [fin] -> Forall is_item outs.
+Proof. exact drain_items. Qed.
+
+(* The export.  EVERY configuration (any buffered set, any tolerances, c_emit_eof on or off), every input: if the buffered drain
+   yields the items [outs] and ends with None, there is an unrolling [T] of these items (Start and End of each Full item at the
+   offset of the Full item; its tags are the recursively unrolled tags of [outs]) such that, for every item limit [lim], the
+   drain with nothing buffered yields exactly [T] and ends with None - provided it is not cut at its limit, which cannot happen
+   when [lim] exceeds the number of unrolled tags. *)
+Theorem C08_buffered_none_export : forall c input outs, p_run c input [RAll] = outs ++ [ONone] ->
+  exists T, Unr (out_items outs) T /\ qtags T = flat (out_tags outs) /\ length T = length (flat (out_tags outs)) /\
+    forall lim, ~ In OLimit (run_u c input lim) \/ (length (flat (out_tags outs)) < lim)%nat ->
+                run_u c input lim = map item_out T ++ [ONone].
+Proof. exact buffered_none_export. Qed.
+
+(* the same for the drain [p_run (unbuffered c) input [RAll]] (item limit 4 * |input| + 64): every configuration, every input; if
+   the buffered drain yields the items [outs] and ends with None, and the drain with nothing buffered has no item-limit outcome
+   or the unrolled tags of [outs] are fewer than 4 * |input| + 64, then the drain with nothing buffered yields items [outsU]
+   and ends with None, [outsU] is an unrolling of [outs], and its tags are the unrolled tags of [outs]. *)
+Theorem C08_buffered_none_unbuffered_none : forall c input outs, p_run c input [RAll] = outs ++ [ONone] ->
+  ~ In OLimit (p_run (unbuffered c) input [RAll]) \/ (length (flat (out_tags outs)) < 4 * length input + 64)%nat ->
+  exists outsU, p_run (unbuffered c) input [RAll] = outsU ++ [ONone] /\ Forall is_item outsU /\
+                Unr (out_items outs) (out_items outsU) /\ flat (out_tags outs) = out_tags outsU.
+Proof. exact buffered_none_unbuffered_none. Qed.
+
+(* With end-of-input closing, no panic-site / budget outcome in the buffered drain, and the drain with nothing buffered not cut
+   at its item limit: the buffered drain ends with None (after items only) if and only if the drain with nothing buffered does.
+   (Left to right is C08_buffered_none_unbuffered_none, right to left C08_clean_stays_clean_gen.  The side condition about the
+   limit is needed: in C08_limit_ex the buffered drain ends with None and the unbuffered one is cut.) *)
+Theorem C08_none_iff : forall c input, c_emit_eof c = true -> nobad (p_run c input [RAll]) ->
+  ~ In OLimit (p_run (unbuffered c) input [RAll]) ->
+  ((exists outs, p_run c input [RAll] = outs ++ [ONone]) <-> (exists outsU, p_run (unbuffered c) input [RAll] = outsU ++ [ONone])).
+Proof. exact none_iff. Qed.
+
+(* ------------------------------------------------------------------ without end-of-input closing
+   The two theorems that follow make no assumption on c_emit_eof; with c_emit_eof = true they are C08_error_prefix_gen and
+   C08_clean_stays_clean_gen (the extra hypothesis of the second then holds: C08_eof_final_stack_empty). *)
+
+(* C08_error_prefix_gen without the assumption c_emit_eof c = true.  Every configuration, every input: if the buffered drain has
+   no panic-site / budget outcome and the drain with nothing buffered yields the items [outsU] and ends in the error [e], then
+   the buffered drain yields items [outs] and ends in the same error [e]; [outs] has an unrolling [T] that is a prefix of the
+   unbuffered items, the rest [extra] being successful items. *)
+Theorem C08_error_prefix_any : forall c input outsU e,
+  nobad (p_run c input [RAll]) -> p_run (unbuffered c) input [RAll] = outsU ++ [OErr e] ->
+  exists outs T extra, p_run c input [RAll] = outs ++ [OErr e] /\ Forall is_item outs /\
+    Unr (out_items outs) T /\ out_items outsU = T ++ extra /\
+    out_tags outsU = flat (out_tags outs) ++ qtags extra.
+Proof. exact error_prefix_any. Qed.
+
+(* the same on well-formed bytes and a specification whose path ids are masters (as C08_error_prefix, minus c_emit_eof c = true) *)
+Theorem C08_error_prefix_any_wf : forall c input outsU e,
+  implied_ok (c_sp c) -> wf_bytes input -> p_run (unbuffered c) input [RAll] = outsU ++ [OErr e] ->
+  exists outs rest, p_run c input [RAll] = outs ++ [OErr e] /\ Forall is_item outs /\
+                    out_tags outsU = flat (out_tags outs) ++ rest.
+Proof. exact error_prefix_any_wf. Qed.
+
+(* C08_clean_stays_clean_gen with the assumption c_emit_eof c = true replaced by "the drain with nothing buffered closes every
+   master with a buffered id".  Every configuration, every input: if the buffered drain has no panic-site / budget outcome, the
+   drain with nothing buffered yields the items [outsU] and ends with None, and in the state in which that drain ends no open
+   master (started or implied as an ancestor) has a buffered id, then the buffered drain yields items [outs] and ends with None,
+   [outsU] is an unrolling of [outs], and the unrolled tags of [outs] are the tags of [outsU]. *)
+Theorem C08_clean_stays_clean_open : forall c input outsU,
+  nobad (p_run c input [RAll]) -> p_run (unbuffered c) input [RAll] = outsU ++ [ONone] ->
+  nobuf c (b_stack (final_u c input)) ->
+  exists outs, p_run c input [RAll] = outs ++ [ONone] /\ Forall is_item outs /\
+               Unr (out_items outs) (out_items outsU) /\ flat (out_tags outs) = out_tags outsU.
+Proof. exact clean_stays_clean_open. Qed.
+
+Theorem C08_clean_stays_clean_open_wf : forall c input outsU,
+  implied_ok (c_sp c) -> wf_bytes input -> p_run (unbuffered c) input [RAll] = outsU ++ [ONone] ->
+  nobuf c (b_stack (final_u c input)) ->
+  exists outs, p_run c input [RAll] = outs ++ [ONone] /\ Forall is_item outs /\ flat (out_tags outs) = out_tags outsU.
+Proof. exact clean_stays_clean_open_wf. Qed.
+
+(* with end-of-input closing a drain with nothing buffered that ends with None leaves nothing open at all *)
+Theorem C08_eof_final_stack_empty : forall c input outsU, c_emit_eof c = true ->
+  p_run (unbuffered c) input [RAll] = outsU ++ [ONone] -> b_stack (final_u c input) = [].
+Proof. exact eof_final_stack_empty. Qed.
+
+(* Root(129) > A(16643, buffered) > x(16642); y(16644) is a child of Root.  End-of-input closing OFF. *)
+Definition C08_noeof_sp : spec :=
+  [ {| e_id := 129; e_ty := DMaster; e_path := [] |}; {| e_id := 16643; e_ty := DMaster; e_path := [PId 129] |};
+    {| e_id := 16644; e_ty := DUInt; e_path := [PId 129] |};
+    {| e_id := 16642; e_ty := DUInt; e_path := [PId 129; PId 16643] |} ].
+Definition C08_noeof_cfg : cfg :=
+  {| c_sp := C08_noeof_sp; c_allow_id := false; c_allow_hier := false; c_allow_over := false; c_max := Some 4000000000;
+     c_buffered := [16643]; c_emit_eof := false |}.
+
+(* Root{ A{ x = 7 } y = 9 }, Root and A of unknown size: A is closed by y, the input ends inside Root only.  The drain with
+   nothing buffered ends with None, its final stack is [Root]: the hypotheses of C08_clean_stays_clean_open hold, and the buffered
+   drain is clean and unrolls to the unbuffered one (neither has an End of Root: nothing closes it). *)
+Example C08_noeof_ex :
+  let input := [129; 255; 65; 3; 255; 65; 2; 129; 7; 65; 4; 129; 9] in
+  p_run (unbuffered C08_noeof_cfg) input [RAll] =
+    [OItem (TStart 129) 0; OItem (TStart 16643) 2; OItem (TElem 16642 (VU 7)) 5; OItem (TEnd 16643) 2;
+     OItem (TElem 16644 (VU 9)) 9; ONone] /\
+  map f_id (b_stack (final_u C08_noeof_cfg input)) = [129] /\
+  nobuf C08_noeof_cfg (b_stack (final_u C08_noeof_cfg input)) /\
+  p_run C08_noeof_cfg input [RAll] =
+    [OItem (TStart 129) 0; OItem (TFull 16643 [TElem 16642 (VU 7)]) 2; OItem (TElem 16644 (VU 9)) 9; ONone].
+Proof.
+  cbv zeta. split; [vm_compute; reflexivity|]. split; [vm_compute; reflexivity|]. split; [|vm_compute; reflexivity].
+  unfold nobuf. vm_compute. repeat constructor.
+Qed.
+
+(* The hypothesis cannot be dropped (finding D18).  Root{ A{ x = 7 } } with A of unknown size and the input ending inside A (the
+   same happens when A declares more bytes than the input has).  The drain with nothing buffered is clean: Start Root, Start A,
+   x, None, and A (a buffered id) is still open in its final state.  The buffered drain is NOT clean: it yields Start Root, then
+   the child x of A WITHOUT a Start or Full item of A, then the error "the master at offset 2 never ended".  So
+   C08_clean_stays_clean fails with end-of-input closing off, and the conclusion of C08_clean_stays_clean_open fails when a
+   buffered master is left open. *)
+Example C08_noeof_counterexample :
+  let input := [129; 255; 65; 3; 255; 65; 2; 129; 7] in
+  p_run (unbuffered C08_noeof_cfg) input [RAll] =
+    [OItem (TStart 129) 0; OItem (TStart 16643) 2; OItem (TElem 16642 (VU 7)) 5; ONone] /\
+  map f_id (b_stack (final_u C08_noeof_cfg input)) = [16643; 129] /\
+  ~ nobuf C08_noeof_cfg (b_stack (final_u C08_noeof_cfg input)) /\
+  p_run C08_noeof_cfg input [RAll] =
+    [OItem (TStart 129) 0; OItem (TElem 16642 (VU 7)) 5; OErr (REof 2 (Some 16643) None None)] /\
+  p_run C08_noeof_cfg [129; 139; 65; 3; 136; 65; 2; 129; 7] [RAll] =
+    [OItem (TStart 129) 0; OItem (TElem 16642 (VU 7)) 5; OErr (REof 2 (Some 16643) None None)].
+Proof.
+  cbv zeta. split; [vm_compute; reflexivity|]. split; [vm_compute; reflexivity|]. split; [|split; vm_compute; reflexivity].
+  unfold nobuf. vm_compute. intros H. apply Forall_cons_iff in H. destruct H as [H _]. discriminate H.
+Qed.
+
+(* The hypothesis is sufficient, not necessary: it also counts masters that are open as IMPLIED ancestors.  Reading starts at x
+   (declared Root/A/x): Root and A are implied, never started, so buffer_master never runs for A; with end-of-input closing off
+   they stay open; both drains are clean and equal although a frame with the buffered id A is on the final stack. *)
+Example C08_noeof_implied_ex :
+  let input := [65; 2; 129; 7] in
+  p_run (unbuffered C08_noeof_cfg) input [RAll] = [OItem (TElem 16642 (VU 7)) 0; ONone] /\
+  map f_id (b_stack (final_u C08_noeof_cfg input)) = [16643; 129] /\
+  p_run C08_noeof_cfg input [RAll] = [OItem (TElem 16642 (VU 7)) 0; ONone].
+Proof. vm_compute. repeat split; reflexivity. Qed.
+
+(* C08_error_prefix_any at work with end-of-input closing off: an unknown id (0x4110 at offset 9) inside the open buffered
+   master A, and a header truncated by the end of the input inside A: the buffered drain ends in the same error *)
+Example C08_noeof_error_ex :
+  let bad_id := [129; 255; 65; 3; 255; 65; 2; 129; 7; 65; 16; 129; 9] in
+  let cut := [129; 255; 65; 3; 255; 65; 2; 129; 7; 65] in
+  p_run (unbuffered C08_noeof_cfg) bad_id [RAll] =
+    [OItem (TStart 129) 0; OItem (TStart 16643) 2; OItem (TElem 16642 (VU 7)) 5; OErr (RInvalidTagId 9 16656)] /\
+  p_run C08_noeof_cfg bad_id [RAll] = [OItem (TStart 129) 0; OErr (RInvalidTagId 9 16656)] /\
+  p_run (unbuffered C08_noeof_cfg) cut [RAll] =
+    [OItem (TStart 129) 0; OItem (TStart 16643) 2; OItem (TElem 16642 (VU 7)) 5; OErr (REof 9 None None None)] /\
+  p_run C08_noeof_cfg cut [RAll] = [OItem (TStart 129) 0; OErr (REof 9 None None None)].
+Proof. vm_compute. repeat split; reflexivity. Qed.
